@@ -839,6 +839,7 @@ def _install(M):
     def _nconj(ex, a, k, l):
         return _conj(a[0])
     M.table["numpy.conjugate"] = M.table["numpy.conj"]
+    M.table["conj"] = M.table["numpy.conj"]           # spec-language alias
 
     @reg("numpy.real")
     def _nreal(ex, a, k, l):
